@@ -365,6 +365,7 @@ func c06Class(err error) uint64 {
 		{"wrong Block.Header.LastResultsHash", 27}, {"wrong Block.Header.ValidatorsHash", 28},
 		{"wrong Block.Header.NextValidatorsHash", 29}, {"initial block can't have LastCommit signatures", 30},
 		{"invalid commit -- wrong block ID", 33}, {"wrong signature (#", 34},
+		{"wrong validator address in LastCommit signature", 37},
 		{"expected ProposerAddress size", 40}, {"is not a validator", 41},
 		{"not greater than last block time", 42}, {"invalid block time. Expected", 43},
 		{"is not equal to genesis time", 44}, {"lower than initial height", 45},
